@@ -36,3 +36,40 @@ pub assume_specification<'a, I, A: std::alloc::Allocator> [<&'a std::boxed::Box<
         vstd::std_specs::iter::IteratorSpec::remaining(&iter) == s@.as_ref(),
         vstd::std_specs::slice::into_iter_elts(iter) == vstd::std_specs::iter::IteratorSpec::remaining(&iter).unref(),
         vstd::std_specs::iter::IteratorSpec::decrease(&iter) is Some;
+// ---- VecDeque::drain ----
+// std: `pub fn drain<R>(&mut self, range: R) -> Drain<'_, T, A> where R: RangeBounds<usize>`
+//   "Removes the specified range from the deque in bulk, returning all removed elements as an iterator. If the
+//    iterator is dropped before being fully consumed, it drops the remaining removed elements. The returned iterator
+//    keeps a mutable borrow on the queue to optimize its implementation.
+//    Panics: Panics if the range has `start_bound > end_bound`, or, if the range is bounded on either end and past
+//    the length of the deque.
+//    Leaking: If the returned iterator goes out of scope without being dropped (due to mem::forget, for example),
+//    the deque may have lost and leaked elements arbitrarily, including elements outside the range."
+// The range is read through vstd's own model of `RangeBounds` (`vstd::std_specs::range::RangeBoundsSpec`, which vstd
+// defines for Range, RangeTo, RangeFrom, RangeFull, RangeInclusive, RangeToInclusive): `drain_lo`/`drain_hi` are the
+// half-open index interval `[lo, hi)` that the bounds denote for a deque of length `len` (core::slice::range).
+// `Drain` stays opaque (no view, no iterator model): the only thing stated is the value the deque has once the guard's
+// mutable borrow has ended, i.e. after the guard was dropped - which does not depend on how much of it was iterated.
+// The "Leaking" clause is outside this contract: nothing in the crate forgets a Drain (mem::forget has no Verus spec here).
+#[verifier::external_type_specification] #[verifier::external_body]
+#[verifier::reject_recursive_types(T)] #[verifier::reject_recursive_types(A)]
+pub struct ExVecDequeDrain<'a, T: 'a, A: std::alloc::Allocator>(std::collections::vec_deque::Drain<'a, T, A>);
+pub open spec fn drain_lo<R: std::ops::RangeBounds<usize>>(r: R) -> int {
+    match vstd::std_specs::range::RangeBoundsSpec::spec_start_bound(&r) {
+        std::ops::Bound::Included(s) => *s as int,
+        std::ops::Bound::Excluded(s) => *s as int + 1,
+        std::ops::Bound::Unbounded => 0,
+    }
+}
+pub open spec fn drain_hi<R: std::ops::RangeBounds<usize>>(r: R, len: int) -> int {
+    match vstd::std_specs::range::RangeBoundsSpec::spec_end_bound(&r) {
+        std::ops::Bound::Included(e) => *e as int + 1,
+        std::ops::Bound::Excluded(e) => *e as int,
+        std::ops::Bound::Unbounded => len,
+    }
+}
+pub assume_specification<'a, T, A: std::alloc::Allocator, R: std::ops::RangeBounds<usize>> [std::collections::VecDeque::<T, A>::drain::<R>] (v: &'a mut std::collections::VecDeque<T, A>, range: R) -> (d: std::collections::vec_deque::Drain<'a, T, A>)
+    requires
+        drain_lo(range) <= drain_hi(range, old(v)@.len() as int) <= old(v)@.len(),
+    ensures
+        final(v)@ == old(v)@.subrange(0, drain_lo(range)) + old(v)@.subrange(drain_hi(range, old(v)@.len() as int), old(v)@.len() as int);
